@@ -135,6 +135,7 @@ var extraRules = map[string][]string{
 	"no-recode":         {"C02"},
 	"default-code":      {"C19"},
 	// round-6 rules and sharing
+	"coded-read-error-kept":         {"C04", "C06", "C15"},
 	"unary-encoding-header-decided": {"C01", "C05", "C08"},
 	"gen-index-result-checked":      {"C17"},
 	"validate-response-exits":       {"C01", "C04", "C05", "C06", "C11"},
